@@ -262,7 +262,17 @@ impl<'a> Gen<'a> {
                 0..=5 => {
                     let op = *self.rng.pick(&[ArithOp::Add, ArithOp::Add, ArithOp::Sub, ArithOp::Sub, ArithOp::Mul, ArithOp::Mul, ArithOp::Rem, ArithOp::Pow]);
                     let a = self.expr(Ty::Int, d);
-                    let c = if op == ArithOp::Pow { int(self.rng.range(0, 5)) } else { self.expr(Ty::Int, d) };
+                    let c = if op == ArithOp::Pow {
+                        // small exponents mostly; sometimes exponents around / beyond 2^32 and 2^63
+                        // (F-C01-5, fixed: the power wraps for every non-negative exponent)
+                        if self.rng.chance(1, 6) {
+                            int(*self.rng.pick(&[63, 64, 65, 4294967295, 4294967296, 4294967297, 8589934593, 9223372036854775807]))
+                        } else {
+                            int(self.rng.range(0, 5))
+                        }
+                    } else {
+                        self.expr(Ty::Int, d)
+                    };
                     Expr::Arith(op, b(a), b(c))
                 }
                 6 => Expr::Neg(b(self.expr(Ty::Int, d))),
